@@ -97,6 +97,11 @@ def build_modules(cases, workdir):
             jid = "%s|%s" % (f, tag)
             jobs.append({"id": jid, "schema_path": spath, "query": q, "options": dict(OPTS, skip_serializing_none=True), "want_tokens": True})
             meta[jid] = (t, f, tag, q)
+        # ... and under normalization = rust (the ID helpers are attached by the type's name: `ID`, not `Id`)
+        for tag, q in (("plainr", docs["plain"]), ("variantr", docs["variant"])):
+            jid = "%s|%s" % (f, tag)
+            jobs.append({"id": jid, "schema_path": spath, "query": q, "options": dict(OPTS, normalization="rust"), "want_tokens": True})
+            meta[jid] = (t, f, tag, q)
     return jobs, meta, names, spath
 
 
@@ -104,7 +109,7 @@ def wrap(pos, f, val, absent):
     inner = {"s": "x", "n": 1}
     if not absent:
         inner[f] = val
-    if pos == "variant":
+    if pos.startswith("variant"):
         inner["__typename"] = "T"
         return {"u": inner}
     return {"t": inner}
@@ -146,7 +151,7 @@ def part_b(ck, tier, selftest=False):
     # sibling members must not coerce: String <- 1 and Int <- "1" are rejected (checked once per module)
     vjobs, vmeta = [], {}
     for ci, c in enumerate(cases):
-        for pos in ("plain", "frag", "variant", "plainb", "plainj", "plains", "frags"):
+        for pos in ("plain", "frag", "variant", "plainb", "plainj", "plains", "frags", "plainr", "variantr"):
             cid = cid_of.get((c["text"], pos))
             if not cid or cid in errs:
                 continue
